@@ -31,9 +31,18 @@ SQUEEZE_OK = ('h5', 'nc', 'dcd', 'mdcrd', 'xyz', 'lammpstrj')    # writers that 
 XTOL = 5e-4
 
 
-def ragged_kinds(fmt, with_cell, with_time):
+EXTRA_FIELDS = ['velocities', 'kineticEnergy', 'potentialEnergy', 'temperature']     # what HDF5Reporter adds to every report
+
+
+def ragged_kinds(fmt, with_cell, with_time, extras=None):
     c = CAPS[fmt]
     out = []
+    if fmt == 'h5' and extras is not None:
+        # the per-frame fields of the reporter protocol are part of the schema the first write fixes
+        if extras:
+            out.append('drop_extra')
+        if len(extras) < len(EXTRA_FIELDS):
+            out.append('add_extra')
     if fmt == 'pdb':
         # each write() is one MODEL with its own topology argument and the file holds a single CRYST1 record:
         # neither atom count nor cell presence is a per-write schema the file object could police
@@ -115,7 +124,10 @@ def generate(check, rng, tier, run_index):
         n_atoms = max(3, n_atoms)
     mode = rng.weighted([('flushed', 5), ('raw', 3), ('faultfree', 2)])
     nops = rng.randint(2, 12)
-    rag = ragged_kinds(fmt, cell is not None, with_time)
+    extras = None
+    if fmt == 'h5' and rng.chance(0.5):
+        extras = [f for f in EXTRA_FIELDS if rng.chance(0.5)]       # possibly none of them: then only 'add_extra' can be ragged
+    rag = ragged_kinds(fmt, cell is not None, with_time, extras)
     ops = []
     n_ragged = 0
     for j in range(nops):
@@ -141,6 +153,8 @@ def generate(check, rng, tier, run_index):
         ops.insert(0, {'op': 'write', 'k': 1})
     case = {'check': check, 'fmt': fmt, 'n_atoms': n_atoms, 'cell': cell, 'with_time': with_time,
             'seed': rng.below(1 << 30), 'mode': mode, 'ops': ops}
+    if extras is not None:
+        case['extras'] = extras
     if fmt == 'nc' and rng.chance(0.4):
         case['nc_backend'] = 'scipy'
     alias = {'nc': ['.nc', '.netcdf', '.ncdf'], 'mdcrd': ['.mdcrd', '.crd'], 'h5': ['.h5', '.hdf5'], 'xyz': ['.xyz', '.xyz.gz'], 'pdb': ['.pdb', '.pdb.gz']}
@@ -175,13 +189,13 @@ class Writer(object):
         if self.fmt == 'h5' and mode == 'w':
             self.h.topology = self.top     # what HDF5Reporter does before the first report
 
-    def write(self, xyz_nm, time, L_nm, A, top=None):
-        """xyz (k, n, 3) nm; time (k,) or None; L (k,3) nm or None; A (k,3) or None"""
+    def write(self, xyz_nm, time, L_nm, A, top=None, extras=None):
+        """xyz (k, n, 3) nm; time (k,) or None; L (k,3) nm or None; A (k,3) or None; extras: further per-frame fields (h5)"""
         fmt, h = self.fmt, self.h
         top = top or self.top
         k = len(xyz_nm)
         if fmt == 'h5':
-            h.write(xyz_nm, time=time, cell_lengths=L_nm, cell_angles=A)
+            h.write(xyz_nm, time=time, cell_lengths=L_nm, cell_angles=A, **(extras or {}))
         elif fmt == 'nc':
             h.write(xyz_nm * 10, time=time, cell_lengths=None if L_nm is None else L_nm * 10, cell_angles=A)
         elif fmt == 'dcd':
@@ -295,6 +309,22 @@ def same_load(a, b):
 
 
 # ------------------------------------------------------------------ execute
+
+def _extras(case, src, ids, squeeze=False, names=None):
+    """the reporter's further per-frame fields for frames ids (h5 only): velocities (k, n, 3), energies and temperature (k,)"""
+    names = case.get('extras') if names is None else names
+    if not names:
+        return None
+    out = {}
+    idv = np.asarray(ids, dtype=np.float64)
+    for nm in names:
+        if nm == 'velocities':
+            v = (src['xyz'][ids] * 0.5 + 1.0).astype(np.float32)
+        else:
+            v = (idv * {'kineticEnergy': 1.5, 'potentialEnergy': -2.5, 'temperature': 0.25}[nm] + 300.0).astype(np.float32)
+        out[nm] = v if not squeeze else (v[0] if nm == 'velocities' else float(v[0]))
+    return out
+
 
 def _noncontig(x, t_, l_, a_):
     """the same values as float64, non C-contiguous views (every second row of a bigger array / Fortran order)"""
@@ -461,8 +491,11 @@ def _execute(check, case, workdir):
                     res.probe('noncontiguous_float64_input')
                 if k == 0:
                     res.probe('zero_frame_write')
+                ex = _extras(case, src, ids, squeeze=(op.get('squeeze') and k == 1 and fmt in SQUEEZE_OK))
+                if ex:
+                    res.probe('reporter_fields_written')
                 try:
-                    w.write(x, t_, l_, a_)
+                    w.write(x, t_, l_, a_, extras=ex)
                 except Exception as e:
                     res.log.append('%d write(%d) raised %s' % (stepno, k, type(e).__name__))
                     viol('write', 'raises:%s' % type(e).__name__, {'message': str(e)[:300], 'k': k, 'accepted_before': len(accepted)}, stepno)
@@ -497,7 +530,7 @@ def _execute(check, case, workdir):
                 if not accepted:
                     continue        # no schema yet: nothing can be ragged
                 rk = op['kind']
-                if rk not in ragged_kinds(fmt, with_cell, with_time):
+                if rk not in ragged_kinds(fmt, with_cell, with_time, case.get('extras')):
                     continue
                 k = op['k']
                 ids = list(range(cursor, cursor + k))
@@ -518,10 +551,15 @@ def _execute(check, case, workdir):
                     t_ = src['time'][ids]
                 elif rk == 'drop_time':
                     t_ = None
+                ex = _extras(case, src, ids)
+                if rk == 'drop_extra':
+                    ex = _extras(case, src, ids, names=case['extras'][1:])
+                elif rk == 'add_extra':
+                    ex = _extras(case, src, ids, names=case['extras'] + [f for f in EXTRA_FIELDS if f not in case['extras']][:1])
                 res.fault('ragged:' + rk)
                 refused = False
                 try:
-                    w.write(x, t_, l_, a_, top=rtop)
+                    w.write(x, t_, l_, a_, top=rtop, extras=ex)
                 except Exception as e:
                     refused = True
                     res.log.append('%d ragged(%s) refused with %s' % (stepno, rk, type(e).__name__))
@@ -564,9 +602,23 @@ def _execute(check, case, workdir):
     w2 = Writer(md, fmt, sib, top, n_atoms)
     try:
         x, t_, l_, a_ = _chunk(src, accepted, with_cell, with_time)
-        w2.write(x, t_, l_, a_)
+        w2.write(x, t_, l_, a_, extras=_extras(case, src, accepted))
     finally:
         w2.close()
+    if case.get('extras') is not None and fmt == 'h5':
+        # the reporter fields: as many entries as frames, the values of the accepted frames, nothing for fields never written
+        want = _extras(case, src, accepted) or {}
+        with md.formats.HDF5TrajectoryFile(path) as fh:
+            got = fh.read()
+        for nm in EXTRA_FIELDS:
+            g = getattr(got, nm)
+            if nm not in want:
+                if g is not None and len(g):
+                    viol('final', 'field_appeared:' + nm, {'entries': int(len(g)), 'accepted': len(accepted)}, final_step, tag)
+                    return res
+            elif g is None or len(g) != len(accepted) or not np.allclose(np.asarray(g, dtype=np.float64), want[nm], rtol=1e-6, atol=1e-6):
+                viol('final', 'field_differs:' + nm, {'entries': None if g is None else int(len(g)), 'accepted': len(accepted)}, final_step, tag)
+                return res
     s = load_file(md, fmt, sib, top)
     bad = same_load(t, s)
     nwrites = sum(1 for o in case['ops'] if o['op'] == 'write')
@@ -640,7 +692,7 @@ def _child_history(case, workdir):
                 x, t_, l_, a_ = x[0], (None if t_ is None else float(t_[0])), (None if l_ is None else l_[0]), (None if a_ is None else a_[0])
             elif op.get('noncontig') and op['k'] > 0:
                 x, t_, l_, a_ = _noncontig(x, t_, l_, a_)
-            w.write(x, t_, l_, a_)
+            w.write(x, t_, l_, a_, extras=_extras(case, src, ids, squeeze=(op.get('squeeze') and op['k'] == 1 and fmt in SQUEEZE_OK)))
             cursor += op['k']
             n_acc += op['k']
             if auto_flush:
